@@ -708,6 +708,24 @@ func (fr *Frame) specHelper(name string, fn *ssa.Function, args []Val, pos token
 			return Val{T: Forall([]*Term{q}, body)}, true
 		}
 		return Val{T: Exists([]*Term{q}, body)}, true
+	case "vcPreElem":
+		// element k of slice s as it was in the pre-state of the function under contract (s is usually old(x.f))
+		var pre *State
+		if c.curMk != nil && c.curMk.pre != nil {
+			pre = c.curMk.pre
+		} else {
+			pre = c.pre
+		}
+		if pre == nil {
+			unsupported("vcPreElem outside a contract")
+		}
+		et := fn.Params[0].Type().Underlying().(*types.Slice).Elem()
+		s := args[0].T
+		saved := fr.cur
+		fr.cur = pre.clone()
+		v := fr.load(Val{Ptr: &PtrVal{Root: RootElem, Arr: DataField_(s, 0), Idx: BV("bvadd", DataField_(s, 1), args[1].T), Elem: et}}, et, pos, false)
+		fr.cur = saved
+		return v, true
 	case "vcOldBind":
 		k, _ := args[0].T.IsLitBV()
 		if c.oldBinds != nil {
